@@ -68,5 +68,63 @@ def okFn (f : FnDef) : Bool := okS false f.body
 
 def ScalarCore (M : Module) : Prop := ∀ f ∈ M.fns, okFn f = true
 
+/-! ## The additional (decidable) hypothesis -/
+
+mutual
+  /-- The `(scope, key)` pairs of the variable occurrences of an expression. -/
+  def accE : Expr → List (Scope × VarKey)
+    | .litI _ => []
+    | .litF _ => []
+    | .var sc key _ => [(sc, key)]
+    | .bin _ _ l r => accE l ++ accE r
+    | .cast _ e => accE e
+    | .assign lhs rhs => accE lhs ++ accE rhs
+    | .affix _ _ x => accE x
+    | .call _ _ args => accArgs args
+    | .index _ _ base idx => accE base ++ accE idx
+    | .member _ base _ => accE base
+    | .swizzle _ base _ => accE base
+    | .construct _ args => accArgs args
+  def accArgs : Args → List (Scope × VarKey)
+    | .nil => []
+    | .cons e rest => accE e ++ accArgs rest
+end
+
+def accOptE : Option Expr → List (Scope × VarKey)
+  | none => []
+  | some e => accE e
+
+/-- The variable accesses of a statement: the variable occurrences of its expressions, and the local variable written
+by an initialising declaration. -/
+def accS : Stmt → List (Scope × VarKey)
+  | .skip => []
+  | .decl _ _ none => []
+  | .decl name _ (some e) => (.local, .name name) :: accE e
+  | .expr e => accE e
+  | .seq a b => accS a ++ accS b
+  | .ite1 c t => accE c ++ accS t
+  | .ite2 c t e => accE c ++ accS t ++ accS e
+  | .whileL c body => accE c ++ accS body
+  | .doL body c => accS body ++ accE c
+  | .forL init c next body => accS init ++ accOptE c ++ accOptE next ++ accS body
+  | .brk => []
+  | .cont => []
+  | .ret none => []
+  | .ret (some e) => accE e
+
+/-- No key is accessed under two different scopes. -/
+def scopesAgree (V : List (Scope × VarKey)) : Bool :=
+  V.all fun a => V.all fun b => !(a.2 == b.2) || a.1 == b.1
+
+/-- Inside one function a variable key denotes one variable: a name is not used both for a local and for a global
+(argument keys are positions and cannot clash with names). -/
+def noShadowFn (f : FnDef) : Bool := scopesAgree (accS f.body)
+
+def NoShadow (M : Module) : Prop := ∀ f ∈ M.fns, noShadowFn f = true
+
+instance (M : Module) : Decidable (ScalarCore M) := by unfold ScalarCore; exact inferInstance
+instance (M : Module) : Decidable (NoShadow M) := by unfold NoShadow; exact inferInstance
+
+
 end Core
 end Nsl
